@@ -388,22 +388,24 @@ obligations below are the facts of those shapes that the model's `handle`,
 
 open SerfModel.SourceShape SerfModel.Gen.KeyringPersist
 
-def opLine (op : String) : String := "if err := keyring." ++ op ++ "(req.Key); err != nil {"
-def writeLine : String := "if err := s.serf.writeKeyringFile(); err != nil {"
+/-- (statements in the extractor's canonical form: locals renamed v0, v1, … in order of first
+occurrence — v0 the receiver, v1 the query, v2 the response, v3 the keyring, v4 the request) -/
+def opLine (op : String) : String := "if v6 := v3." ++ op ++ "(v4.Key); v6 != nil {"
+def writeLine : String := "if v7 := v0.serf.writeKeyringFile(); v7 != nil {"
 
 /-- a handler first applies the ring operation, leaves (goto SEND) when it failed, and only
 then writes the file; success is reported only after the write; the operation is reached
 only with a decoded payload and encryption enabled -/
 def handlerShapeOK (op : String) (sk : List String) : Bool :=
-  hasBlock [opLine op, "response.Message = err.Error()", "goto SEND", "}"] sk &&
-  hasBlock [writeLine, "response.Message = err.Error()", "goto SEND", "}"] sk &&
+  hasBlock [opLine op, "v2.Message = v6.Error()", "goto SEND", "}"] sk &&
+  hasBlock [writeLine, "v2.Message = v7.Error()", "goto SEND", "}"] sk &&
   before (opLine op) writeLine sk &&
-  before writeLine "response.Result = true" sk &&
-  before "if !s.serf.EncryptionEnabled() {" (opLine op) sk &&
-  before "err = decodeMessage(q.Payload[1:], &req)" "if !s.serf.EncryptionEnabled() {" sk &&
-  hasBlock ["if len(q.Payload) < 1 {", "goto SEND", "}"] sk &&
-  hasBlock ["if err != nil {", "goto SEND", "}"] sk &&
-  hasBlock ["response.Result = true", "SEND:", "s.sendKeyResponse(q, &response)"] sk
+  before writeLine "v2.Result = true" sk &&
+  before "if !v0.serf.EncryptionEnabled() {" (opLine op) sk &&
+  before "v5 = decodeMessage(v1.Payload[1:], &v4)" "if !v0.serf.EncryptionEnabled() {" sk &&
+  hasBlock ["if len(v1.Payload) < 1 {", "goto SEND", "}"] sk &&
+  hasBlock ["if v5 != nil {", "goto SEND", "}"] sk &&
+  hasBlock ["v2.Result = true", "SEND:", "v0.sendKeyResponse(v1, &v2)"] sk
 
 /-- **ring operation, then file write** (seeded C22-a persisted before validating) -/
 theorem C22_src_handlers_op_then_write :
@@ -413,49 +415,35 @@ theorem C22_src_handlers_op_then_write :
 
 /-- install writes only when a keyring file is configured (`handle`'s `.install` branch) -/
 theorem C22_src_install_file_condition :
-    hasBlock ["if s.serf.config.KeyringFile != \"\" {", writeLine, "response.Message = err.Error()", "goto SEND", "}", "}"]
+    hasBlock ["if v0.serf.config.KeyringFile != \"\" {", writeLine, "v2.Message = v7.Error()", "goto SEND", "}", "}"]
       handleInstallKey = true := by decide
 
 /-- nothing but the three handlers, through `writeKeyringFile`, touches the keyring file -/
 theorem C22_src_only_writers :
-    fileWriterCalls = ["handleInstallKey: s.serf.writeKeyringFile", "handleUseKey: s.serf.writeKeyringFile",
-      "handleRemoveKey: s.serf.writeKeyringFile"] := by decide
+    fileWriterCalls = ["handleInstallKey: serf.writeKeyringFile", "handleUseKey: serf.writeKeyringFile", "handleRemoveKey: serf.writeKeyringFile"] := by decide
 
 /-- **the file is exactly `GetKeys()`, in ring order, primary first** (`writeKeyringFile` in
 the model: `file := some ring`), and nothing is written without a configured file -/
 theorem C22_src_writer_ring_order :
-    hasBlock ["if len(s.config.KeyringFile) == 0 {", "return nil", "}"] writeKeyringFile = true ∧
-    hasBlock ["keysRaw := keyring.GetKeys()", "keysEncoded := make([]string, len(keysRaw))",
-      "for i, key := range keysRaw {", "keysEncoded[i] = base64.StdEncoding.EncodeToString(key)", "}",
-      "encodedKeys, err := json.MarshalIndent(keysEncoded, \"\", \" \")"] writeKeyringFile = true ∧
-    once "if err = os.WriteFile(s.config.KeyringFile, encodedKeys, 0600); err != nil {" writeKeyringFile = true ∧
+    hasBlock ["if len(v0.config.KeyringFile) == 0 {", "return nil", "}"] writeKeyringFile = true ∧
+    hasBlock ["v2 := v1.GetKeys()", "v3 := make([]string, len(v2))", "for v4, v5 := range v2 {", "v3[v4] = base64.StdEncoding.EncodeToString(v5)", "}", "v6, v7 := json.MarshalIndent(v3, \"\", \" \")"] writeKeyringFile = true ∧
+    once "if v7 = os.WriteFile(v0.config.KeyringFile, v6, 0600); v7 != nil {" writeKeyringFile = true ∧
     writeKeyringFile.length = 17 := by decide
 
 /-- **the loader keeps every entry and takes the first as primary** (seeded C22-b dropped
 24-byte keys): the decode loop stores each decoded entry at its index, has no `continue`
 and no length test of its own; an empty list is an error; `NewKeyring(keys, keys[0])` -/
 theorem C22_src_loader_keeps_all :
-    hasBlock ["keysDecoded := make([][]byte, len(keys))", "for i, key := range keys {",
-      "keyBytes, err := base64.StdEncoding.DecodeString(key)", "if err != nil {",
-      "return fmt.Errorf(\"Failed to decode key from keyring: %s\", err)", "}", "keysDecoded[i] = keyBytes", "}",
-      "if len(keysDecoded) == 0 {", "return fmt.Errorf(\"Keyring file contains no keys\")", "}",
-      "keyring, err := memberlist.NewKeyring(keysDecoded, keysDecoded[0])", "if err != nil {",
-      "return fmt.Errorf(\"Failed to restore keyring: %s\", err)", "}",
-      "a.conf.MemberlistConfig.Keyring = keyring", "return nil"] loadKeyringFile = true ∧
+    hasBlock ["v7 := make([][]byte, len(v5))", "for v8, v9 := range v5 {", "v10, v11 := base64.StdEncoding.DecodeString(v9)", "if v11 != nil {", "return fmt.Errorf(\"Failed to decode key from keyring: %s\", v11)", "}", "v7[v8] = v10", "}", "if len(v7) == 0 {", "return fmt.Errorf(\"Keyring file contains no keys\")", "}", "v12, v4 := memberlist.NewKeyring(v7, v7[0])", "if v4 != nil {", "return fmt.Errorf(\"Failed to restore keyring: %s\", v4)", "}", "v0.conf.MemberlistConfig.Keyring = v12", "return nil"] loadKeyringFile = true ∧
     absent "continue" loadKeyringFile = true := by decide
 
 /-- **the loader reads the WHOLE file** (seeded C22-d read through a 4 KiB LimitReader while the
 writer has no bound): stat, `os.ReadFile`, `json.Unmarshal` of exactly those bytes, and nothing
 else between them and the decode loop — the function has exactly these 31 statements -/
 theorem C22_src_loader_reads_whole_file :
-    hasBlock ["if _, err := os.Stat(keyringFile); err != nil {", "return err", "}",
-      "keyringData, err := os.ReadFile(keyringFile)", "if err != nil {",
-      "return fmt.Errorf(\"Failed to read keyring file: %s\", err)", "}", "keys := make([]string, 0)",
-      "if err := json.Unmarshal(keyringData, &keys); err != nil {",
-      "return fmt.Errorf(\"Failed to decode keyring file: %s\", err)", "}",
-      "keysDecoded := make([][]byte, len(keys))"] loadKeyringFile = true ∧
+    hasBlock ["if _, v2 := os.Stat(v1); v2 != nil {", "return v2", "}", "v3, v4 := os.ReadFile(v1)", "if v4 != nil {", "return fmt.Errorf(\"Failed to read keyring file: %s\", v4)", "}", "v5 := make([]string, 0)", "if v6 := json.Unmarshal(v3, &v5); v6 != nil {", "return fmt.Errorf(\"Failed to decode keyring file: %s\", v6)", "}", "v7 := make([][]byte, len(v5))"] loadKeyringFile = true ∧
     loadKeyringFile.length = 31 ∧
-    once "if err = os.WriteFile(s.config.KeyringFile, encodedKeys, 0600); err != nil {" writeKeyringFile = true := by decide
+    once "if v7 = os.WriteFile(v0.config.KeyringFile, v6, 0600); v7 != nil {" writeKeyringFile = true := by decide
 
 /-- the accepted key lengths are memberlist's -/
 theorem C22_src_valid_lens : validKeyLens = validLens := by decide
@@ -463,21 +451,10 @@ theorem C22_src_valid_lens : validKeyLens = validLens := by decide
 /-- memberlist's keyring functions, as transcribed by `newKeyring`, `addKey`, `useKey`,
 `removeKey`, `installKeys` (version pinned in go.mod) -/
 theorem C22_src_memberlist :
-    mlNewKeyring = ["keyring := &Keyring{}", "keyring.init()", "if len(keys) > 0 || len(primaryKey) > 0 {",
-      "if len(primaryKey) == 0 {", "return nil, fmt.Errorf(\"empty primary key not allowed\")", "}",
-      "if err := keyring.AddKey(primaryKey); err != nil {", "return nil, err", "}", "for _, key := range keys {",
-      "if err := keyring.AddKey(key); err != nil {", "return nil, err", "}", "}", "}", "return keyring, nil"] ∧
-    mlAddKey = ["if err := ValidateKey(key); err != nil {", "return err", "}", "for _, installedKey := range k.keys {",
-      "if bytes.Equal(installedKey, key) {", "return nil", "}", "}", "keys := append(k.keys, key)",
-      "primaryKey := k.GetPrimaryKey()", "if primaryKey == nil {", "primaryKey = key", "}",
-      "k.installKeys(keys, primaryKey)", "return nil"] ∧
-    mlUseKey = ["for _, installedKey := range k.keys {", "if bytes.Equal(key, installedKey) {",
-      "k.installKeys(k.keys, key)", "return nil", "}", "}",
-      "return fmt.Errorf(\"requested key is not in the keyring\")"] ∧
-    mlRemoveKey = ["if bytes.Equal(key, k.keys[0]) {", "return fmt.Errorf(\"removing the primary key is not allowed\")", "}",
-      "for i, installedKey := range k.keys {", "if bytes.Equal(key, installedKey) {",
-      "keys := append(k.keys[:i], k.keys[i+1:]...)", "k.installKeys(keys, k.keys[0])", "}", "}", "return nil"] ∧
-    mlInstallKeys = ["k.l.Lock()", "defer k.l.Unlock()", "newKeys := [][]byte{primaryKey}", "for _, key := range keys {",
-      "if !bytes.Equal(key, primaryKey) {", "newKeys = append(newKeys, key)", "}", "}", "k.keys = newKeys"] := by decide
+    mlNewKeyring = ["v2 := &Keyring{}", "v2.init()", "if len(v0) > 0 || len(v1) > 0 {", "if len(v1) == 0 {", "return nil, fmt.Errorf(\"empty primary key not allowed\")", "}", "if v3 := v2.AddKey(v1); v3 != nil {", "return nil, v3", "}", "for _, v4 := range v0 {", "if v5 := v2.AddKey(v4); v5 != nil {", "return nil, v5", "}", "}", "}", "return v2, nil"] ∧
+    mlAddKey = ["if v2 := ValidateKey(v1); v2 != nil {", "return v2", "}", "for _, v3 := range v0.keys {", "if bytes.Equal(v3, v1) {", "return nil", "}", "}", "v4 := append(v0.keys, v1)", "v5 := v0.GetPrimaryKey()", "if v5 == nil {", "v5 = v1", "}", "v0.installKeys(v4, v5)", "return nil"] ∧
+    mlUseKey = ["for _, v2 := range v0.keys {", "if bytes.Equal(v1, v2) {", "v0.installKeys(v0.keys, v1)", "return nil", "}", "}", "return fmt.Errorf(\"requested key is not in the keyring\")"] ∧
+    mlRemoveKey = ["if bytes.Equal(v1, v0.keys[0]) {", "return fmt.Errorf(\"removing the primary key is not allowed\")", "}", "for v2, v3 := range v0.keys {", "if bytes.Equal(v1, v3) {", "v4 := append(v0.keys[:v2], v0.keys[v2+1:]...)", "v0.installKeys(v4, v0.keys[0])", "}", "}", "return nil"] ∧
+    mlInstallKeys = ["v0.l.Lock()", "defer v0.l.Unlock()", "v3 := [][]byte{v2}", "for _, v4 := range v1 {", "if !bytes.Equal(v4, v2) {", "v3 = append(v3, v4)", "}", "}", "v0.keys = v3"] := by decide
 
 end SerfProofs.C22
